@@ -65,4 +65,6 @@ def handle (op : String) (args : List String) (impl : String) : String :=
     | _, _, _, _ => badReq "utf8"
   | _, _ => badReq "op"
 
+def ops : List String := ["vercmp", "evrcmp", "nevracmp", "evrstrcmp"]
+
 end RpmVerif.Driver.C13
